@@ -30,6 +30,12 @@ CHECKS["C19"] = dict(
     note="Continuous coordinates are concretised per class with VERIF_SEED; angles compared modulo 2 pi at 1e-12. Oracle leaves: math.atan2/hypot and elementary rotation matrices written independently.",
     ref="5 C19")
 
+CHECKS["C17"] = dict(
+    technique="TLA+ state-merging spec Propagate.tla (abstract state = net distance + evanescent-mask flag, VIEW) model-checked by TLC; edge cover of the dumped graph executed with the real propagate/fft/ifft on every small shape and compared with the canonical image of the target state",
+    text="TLC enumerates all propagate() call paths of length <= 3 (four step sizes of both signs x plain/cascaded options, zero distance, five distance lists with zeros and negatives) in the band-limited and evanescent sampling regimes, and all fft/ifft alternations; the group/semigroup laws are checked on the model and each edge is executed on real and complex images of every shape 2x2..7x7 (thorough; 8 shapes quick) plus seeded shapes up to 64x64: composition d1;d2 = d1+d2, inverse in the band-limited regime, zero returns the input object, list = stack of single results, linearity, energy non-increase, gradient filter, coordinates and metadata kept, ifft(fft(x)) = x with coordinates.",
+    note="Images compared at 1e-10 relative; distances concretised with VERIF_SEED. Stack planes are matched by content, not by z label.",
+    ref="5 C17")
+
 NOT_APPLICABLE = []
 
 
